@@ -22,17 +22,18 @@ ID = "C11"
 LEVEL = "exploration"
 RULE = (
     "Histories = Hypothesis rule-based state machine per source kind (memory buffer, lazy raw file, lazy wav file, "
-    "standard input through a rebound sys.stdin - a BytesIO, or in the thorough tier a real OS pipe fed in odd-sized "
+    "standard input through a rebound sys.stdin - a BytesIO, or a real OS pipe fed in odd-sized "
     "chunks by a writer thread) over audio of 0..40 samples x format, steps drawn from {read(n>=1), read(None), "
     "read(-k), close, open, and for the buffer: position=p in [-N-3,N+3], position_s=t, position_ms=m, rewind, "
-    "position read-back}. Every machine starts with the source not yet opened (a read must raise the I/O error). "
+    "position read-back}; plus, for buffers of 1.2 s at six rates up to 48 kHz, every integer millisecond position (both "
+    "signs) set and read back. Every machine starts with the source not yet opened (a read must raise the I/O error). "
     "Model = (bytes, cursor, open?): read returns bytes[cursor:cursor+min(n,rem)] in whole samples or None when "
     "nothing remains - never b''; closed -> AudioIOError; setters move the cursor (negative from the end; seconds and "
     "milliseconds truncated toward zero, exact rationals with razor), out of range -> IndexError with the cursor "
     "unchanged; rewind/close -> 0; a reopened buffer restarts at sample 0. File and stdin kinds are never reopened "
     "(not claimed). Non-trivial = >= 2 reads and (a position change, a read crossing the end, or a reopen)."
 )
-MUST_HIT = ["negative_position_bps>1", "past_end_buffer", "past_end_raw", "past_end_wav", "past_end_stdin",
+MUST_HIT = ["millisecond_sweep", "negative_position_bps>1", "past_end_buffer", "past_end_raw", "past_end_wav", "past_end_stdin",
             "read_unopened", "index_error", "reopen_buffer", "read_all_remaining", "read_zero"]
 ASSUMPTIONS = [
     "read(0) must return None (a chunk of min(0, remaining) = 0 samples, and never b'') and leave the cursor where it is",
@@ -128,11 +129,7 @@ class Interp:
                 fn()
             except Exception:  # noqa: BLE001
                 pass
-        for p in self.paths:
-            try:
-                os.remove(p)
-            except OSError:
-                pass
+        c10.cleanup(self.paths)
 
     # ------------------------------------------------------------------
     def applicable(self, op):
@@ -262,7 +259,30 @@ class Interp:
         return self.nreads >= 2 and self.interesting
 
 
+def check_sweep(case, rec):
+    """Every integer millisecond (and a grid of second values) inside a buffer longer than a second:
+    setter then read-back, against exact rational truncation."""
+    cfg = case["cfg"]
+    it = Interp(cfg)
+    try:
+        it.apply(["open"])
+        top = (cfg["N"] * 1000) // cfg["sr"] + 2
+        for m in range(0, top + 1, case.get("step", 1)):
+            it.apply(["pos_ms", m])
+            it.apply(["get_pos"])
+            it.apply(["pos_ms", -m])
+        for k in range(0, top, 7):
+            it.apply(["pos_s", k / 1000])
+            it.apply(["get_pos"])
+        it.ops = it.ops[-6:]
+    finally:
+        it.close()
+    rec.note({"cfg": cfg, "sweep_ms": top}, True, it.classes | {"millisecond_sweep"}, out={"ms_values": top + 1})
+
+
 def check_case(case, rec):
+    if "sweep" in case:
+        return check_sweep(case, rec)
     it = Interp(case["cfg"])
     try:
         for op in case["ops"]:
@@ -350,7 +370,9 @@ def make_machine(kinds):
 
 def explicit_cases():
     cfg = dict(kind="buffer", sr=10, sw=2, ch=2, N=12, salt=3)
-    return [
+    sweeps = [{"sweep": True, "cfg": dict(kind="buffer", sr=sr, sw=1, ch=2, N=int(sr * 1.2), salt=sr)}
+              for sr in (1000, 8000, 11025, 16000, 44100, 48000)]
+    return sweeps + [
         {"cfg": cfg, "ops": [["read", 2], ["open"], ["read", 5], ["get_pos"], ["pos", -3], ["read", 10], ["read", 1],
                              ["pos", 13], ["pos", -13], ["pos_s", -0.5], ["get_pos"], ["pos_ms", 700], ["read_all", None],
                              ["read_all", -1], ["close"], ["read", 1], ["open"], ["read", 3], ["rewind"], ["read", 1]]},
@@ -367,10 +389,9 @@ def jobs(tier, seed):
     for i in range(16):
         out.append({"name": f"sm-{KINDS[i % 4]}-{i}", "kinds": [KINDS[i % 4]], "seed": seed * 1000 + i,
                     "n": b["n"], "steps": b["steps"]})
-    if tier == "thorough":
-        for i in range(4):
-            out.append({"name": f"sm-pipe-{i}", "kinds": ["pipe"], "seed": seed * 1000 + 100 + i, "n": 300,
-                        "steps": 20})
+    for i in range(4 if tier == "thorough" else 2):
+        out.append({"name": f"sm-pipe-{i}", "kinds": ["pipe"], "seed": seed * 1000 + 100 + i,
+                    "n": 300 if tier == "thorough" else 40, "steps": 20})
     return out
 
 
